@@ -49,6 +49,8 @@ def run_job(spec):
         c03 = importlib.import_module("checks.c03")
         c03.uninstall_range_summary(ctx.data)
         c03.uninstall_weeks_summary(ctx.data)
+        from . import core as _core
+        _core.LONG_FRACTIONS[0] = False
         res = getattr(mod, fn)(ctx, **kwargs)
         if isinstance(res, list):
             out = res
